@@ -26,14 +26,16 @@ LEVEL = "exploration"
 RULE = ("Hypothesis-drawn cases (hops 1..3, kind in data-out / data-in / ping / speed-test, payload length 0..1400 "
         "boundary-biased, BitTorrent- or IPv8-shaped payload, IPv4/IPv6 destination, fault in none / flip(link, byte, "
         "mask) / splice body from a 2nd circuit / swap circuit id to the 2nd circuit's / forged cell by an outsider with "
-        "own keys); thorough adds every byte position of one data cell on every link of a 3-hop circuit. Non-trivial = "
+        "own keys) plus hidden-service (e2e) circuits of 1-2 hops per side with data in either direction and optional "
+        "flips; thorough adds every byte position of one data cell on every link of a 3-hop circuit. Non-trivial = "
         "payload >= 8 bytes or a fault that hits the encrypted body; distinct = (hops, kind, direction, length class, "
         "fault class, link, byte class).")
 ASSUMPTIONS = [
     "ChaCha20-Poly1305 / X25519 / HKDF in ipv8_rust_tunnels are trusted (reference key copies are derived with the "
     "same library from the traced shared secret)",
     "a flip confined to the unauthenticated relay_early flag byte leaves the data unaltered; delivering it is allowed",
-    "hidden-service (e2e) circuits are not covered by this module yet",
+    "hidden-service (e2e) circuits: delivery, exposure and the presence of the end-to-end layer are checked; the "
+    "rendezvous point's re-encryption is judged only through the windows rule",
 ]
 
 FORWARD, BACKWARD = 0, 1
@@ -353,7 +355,130 @@ class Case:
                 self.fail("I2", "innermost", "innermost plaintext of a test-request is not message 19")
 
 
+class E2ECase:
+    """
+    Hidden-service circuit: downloader - hops - rendezvous point - hops - seeder, built by the real introduction /
+    rendezvous / link flow; one data cell in either direction, optionally altered in flight.
+    """
+
+    def __init__(self, case: dict) -> None:
+        self.case = case
+
+    def fail(self, clause: str, site: str, msg: str) -> None:
+        raise Violation(clause, "e2e:" + site, msg, self.case)
+
+    async def main(self, loop: vloop.VirtualLoop) -> dict:
+        import random
+
+        from ..tunnelsim import HiddenWorld
+        c = self.case
+        hops = c["hops"]
+        w = HiddenWorld(loop, 5 + hops)
+        info = {"nontrivial": False, "cls": "", "desc": None}
+        try:
+            random.seed(c["seed"])
+            seeder, downloader = w.nodes[0], w.nodes[1]
+            res = await w.link_e2e(seeder, downloader, b"\x33" * 20, hops=hops)
+            if res is None:
+                # establishing the rendezvous depends on which peers the random walk picks (e.g. the downloader itself
+                # as introduction point); the property is about circuits that are ready, so this case is only counted
+                info["cls"] = "e2e/not_established"
+                info["desc"] = ("e2e", "not_established", c["seed"], hops)
+                return info
+            d, s = res
+            got = []
+            seeder.overlay.on_raw_data = lambda circ, org, data: got.append(("seeder", circ.circuit_id, data))
+            downloader.overlay.on_raw_data = lambda circ, org, data: got.append(("downloader", circ.circuit_id, data))
+            payload = bt_payload(c["size"], c["seed"] & 0xFF)
+            back = c["kind"] == "e2e_s2d"
+            sender, scirc = (seeder, s) if back else (downloader, d)
+            want = [("downloader", d.circuit_id, payload)] if back else [("seeder", s.circuit_id, payload)]
+            fault = c.get("fault")
+            state = {"n": 0, "hit": None}
+            seq0 = w.net.seq
+            if fault:
+                def hook(fl):
+                    cell = parse_cell(fl.data, w.prefix)
+                    if cell is None or cell["plaintext"] or fl.seq <= seq0:
+                        return None
+                    if state["n"] == fault["link"] and state["hit"] is None:
+                        data = bytearray(fl.data)
+                        pos = fault["byte"] % len(data)
+                        data[pos] ^= (fault["mask"] or 1)
+                        fl.data = bytes(data)
+                        state["hit"] = pos
+                    state["n"] += 1
+                    return None
+                w.net.on_send = hook
+            sender.overlay.send_data(scirc.hop.address, scirc.circuit_id, ("0.0.0.0", 0), ("0.0.0.0", 0), payload)
+            await asyncio.sleep(0.5)
+            w.net.on_send = None
+            if w.net.escaped:
+                e = w.net.escaped[0][3]
+                self.fail("I3", "exception:" + type(e).__name__, f"{type(e).__name__}: {e} left the receive path")
+            chain = [parse_cell(fl.data, w.prefix)["message"] for fl in w.net.log
+                     if fl.seq > seq0 and parse_cell(fl.data, w.prefix) is not None
+                     and not parse_cell(fl.data, w.prefix)["plaintext"]]
+            body_hit = state["hit"] is not None and state["hit"] >= CELL_HDR
+            info["cls"] = "e2e/%dhop/%s/%s/%s" % (hops, c["kind"], size_class(c["size"]), "flip" if fault else "none")
+            info["nontrivial"] = (c["size"] >= 8 and not fault) or body_hit
+            info["desc"] = ("e2e", hops, c["kind"], size_class(c["size"]), fault and (fault["link"], "body" if body_hit
+                                                                                       else state["hit"]))
+            for g in got:
+                if g not in want:
+                    self.fail("I3", "delivery", f"{g[0]} received data that was never sent to it: {g[2][:32]!r}")
+            if fault and state["hit"] is not None:
+                if (body_hit or state["hit"] != 28) and got:
+                    self.fail("I3", "altered:" + ("body" if body_hit else f"header{state['hit']}"),
+                              f"an e2e cell altered in flight (byte {state['hit']}) was still delivered")
+                return info
+            if got != want:
+                self.fail("I1", "delivery", f"e2e payload of {len(payload)} bytes arrived as {[(g[0], g[2][:24]) for g in got]}")
+            # I2: exposure on every link of the chain, and the end-to-end layer under the circuit layers
+            if len(chain) < 2 * hops:
+                self.fail("I2", "wire", f"only {len(chain)} encrypted cells seen for an e2e transfer over {2 * hops}+ links")
+            if len(payload) >= 8:
+                for j, m in enumerate(chain):
+                    for off in range(0, len(payload) - 7):
+                        if payload[off:off + 8] in m:
+                            self.fail("I2", "plaintext", f"8 payload bytes are visible on link {j + 1} of the e2e path")
+            for a in range(len(chain)):
+                for b in range(a + 1, len(chain)):
+                    for off in range(0, max(0, len(chain[a]) - 15)):
+                        if chain[a][off:off + 16] in chain[b]:
+                            self.fail("I2", "ciphertext", f"16 ciphertext bytes identical on links {a + 1} and {b + 1}")
+            refs = [w.trace.ref(h.keys) for h in scirc.hops]
+            hs = w.trace.ref(scirc.hs_session_keys)
+            if hs is None or any(r is None for r in refs):
+                raise AssertionError("key trace incomplete")
+            m = chain[0]
+            for k, r in enumerate(refs):
+                m = try_decrypt(r, m, FORWARD)
+                if m is None:
+                    self.fail("I2", "layer", f"first link does not carry the layer of hop {k + 1}")
+            expected = b"\x01" + ref_addr(("0.0.0.0", 0)) + ref_addr(("0.0.0.0", 0)) + payload
+            if m == expected or (len(payload) >= 8 and payload[:8] in m):
+                self.fail("I2", "e2e_layer", "after removing the circuit layers the cell is plaintext: the end-to-end layer is "
+                                             "missing")
+            inner = try_decrypt(hs, m, FORWARD)
+            if inner is None:
+                inner = try_decrypt(hs, m, BACKWARD)
+            if inner != expected:
+                self.fail("I2", "e2e_layer", "the innermost layer does not decrypt with the end-to-end session keys to the "
+                                             "reference encoding of the cell")
+            return info
+        finally:
+            w.net.on_send = None
+            await w.close()
+
+
 def run_case(ctx: Ctx | None, case: dict) -> None:
+    if case.get("kind", "").startswith("e2e"):
+        runner = E2ECase(case)
+        info = vloop.run(runner.main)
+        if ctx is not None:
+            ctx.case(info.get("desc") or case, info["nontrivial"], cls=info["cls"], sample=case)
+        return
     runner = Case(ctx, case)
     info = vloop.run(runner.main)
     if ctx is not None:
@@ -388,8 +513,18 @@ def _strategy():
                       else c["hops"] + 1})
 
 
+def _e2e_strategy():
+    from hypothesis import strategies as st
+    fault = st.one_of(st.none(), st.fixed_dictionaries({"type": st.just("flip"), "link": st.integers(0, 5),
+                                                        "byte": st.integers(22, 400), "mask": st.integers(1, 255)}))
+    return st.fixed_dictionaries({"seed": st.integers(0, 10_000), "hops": st.integers(1, 2),
+                                  "kind": st.sampled_from(["e2e_d2s", "e2e_s2d"]),
+                                  "size": st.sampled_from([2, 8, 23, 64, 300, 1000]) | st.integers(2, 1200), "fault": fault})
+
+
 def _random_shard(ctx: Ctx, shard: int, nshards: int, n: int) -> None:
     hyp_run(ctx, "cases", _strategy(), lambda c: run_case(ctx, c), n)
+    hyp_run(ctx, "e2e_cases", _e2e_strategy(), lambda c: run_case(ctx, c), max(8, n // 6))
 
 
 def _sweep_shard(ctx: Ctx, shard: int, nshards: int, hops: int, size: int, step: int) -> None:
